@@ -1,0 +1,31 @@
+//go:build verif
+
+package cli
+
+// Verification-only export (build tag "verif"): runs the `j5 j5s fmt` command
+// function (runJ5sFmt) with the given flags. Adds no behaviour.
+
+import (
+	"context"
+	"fmt"
+	"reflect"
+)
+
+// VerifJ5sFmt calls runJ5sFmt(ctx, {Dir: dir, File: file, Write: write}). The
+// command's config is an anonymous struct, so it is filled through reflection.
+func VerifJ5sFmt(ctx context.Context, dir, file string, write bool) error {
+	fn := reflect.ValueOf(runJ5sFmt)
+	cfg := reflect.New(fn.Type().In(1)).Elem()
+	for name, v := range map[string]any{"Dir": dir, "File": file, "Write": write} {
+		f := cfg.FieldByName(name)
+		if !f.IsValid() {
+			return fmt.Errorf("runJ5sFmt config has no field %s", name)
+		}
+		f.Set(reflect.ValueOf(v))
+	}
+	out := fn.Call([]reflect.Value{reflect.ValueOf(ctx), cfg})
+	if len(out) == 1 && !out[0].IsNil() {
+		return out[0].Interface().(error)
+	}
+	return nil
+}
